@@ -151,6 +151,15 @@ theorem replace_spec (c : Config) (b : Builder) (caps : List String) (ha : c.act
       refine ⟨by rw [get_delete_eq, he], fun n hn => get_delete_ne b hn⟩
     · exact ⟨get_set_eq b _ _, fun n hn => get_set_ne b _ hn⟩
 
+/-- The hypotheses of `replace_spec` are satisfiable (general path, match, template target). -/
+example : ∃ (c : Config) (b : Builder) (caps : List String), c.action = .replace ∧
+    fastPath c (joinVals c b) = false ∧ c.regex.run (joinVals c b) = some caps ∧
+    validName c.utf8 (expand c.regex.names caps c.targetLabel) = true :=
+  ⟨{ action := .replace, sourceLabels := ["a"], separator := ";",
+     regex := { run := fun s => some [s, s], names := ["", ""], isDefault := false },
+     modulus := 0, targetLabel := "l_${1}", replacement := "$1", utf8 := false },
+   Builder.new [⟨"a", "v"⟩], ["v", "v"], rfl, by decide, by decide, by decide⟩
+
 /-- The `replace` fast path (`val == ""`, default regex object, no `$` in target and replacement)
     equals the general path on its domain: whenever the regex matches the empty joined value (the
     default `(.*)` does) and the target is a valid name (guaranteed by `Validate`). -/
@@ -166,6 +175,15 @@ theorem fast_path_eq_general (c : Config) (b : Builder) (val : String) (caps : L
   · rename_i he
     simp only [Builder.set, he, if_true]
   · rfl
+
+/-- The hypotheses of `fast_path_eq_general` are satisfiable: the default rule `(.*)` → `$1`-free
+    replacement on an absent source label. -/
+example : ∃ (c : Config) (caps : List String), fastPath c "" = true ∧ c.regex.run "" = some caps ∧
+    validName c.utf8 c.targetLabel = true ∧ c.validate = true :=
+  ⟨{ action := .replace, sourceLabels := ["missing"], separator := ";",
+     regex := { run := fun s => some [s, s], names := ["", ""], isDefault := true },
+     modulus := 0, targetLabel := "job", replacement := "x", utf8 := false }, ["", ""],
+   by decide, rfl, by decide, by decide⟩
 
 /-- `Validate` guarantees the side condition of `fast_path_eq_general`. -/
 theorem validate_fast_path_target (c : Config) (ha : c.action = .replace) (hval : c.validate = true)
